@@ -200,6 +200,36 @@ Theorem C05_sampler_no_drop : forall w c k l e,
 Proof. exact sampler_no_drop_thm. Qed.
 Print Assumptions C05_sampler_no_drop.
 
+(* ---- sibling loggers: the hook list of a hooked core is a value ----
+   Registering one more hook (zap.Hooks through WithOptions, zapcore.RegisterHooks on the logger's core)
+   builds a new core; the core it started from, and every other core built from that one before or
+   afterwards, keeps its own hooks. *)
+
+(* one more hook on a core: what was due before, then the new hook iff the entry is accepted *)
+Theorem C05_hook_registration : forall w c h l e,
+  hooks_of (cores_of (check w (Hooked c h) l e)) =
+  hooks_of (cores_of e) ++ hooks_due w c l ++ (if accepts w c l then [h] else []).
+Proof. exact hook_registration_thm. Qed.
+Print Assumptions C05_hook_registration.
+
+(* any number of loggers derived from each other in any order (With, WithLazy, Named, WithOptions,
+   Sugar().Desugar(), zap.Hooks, RegisterHooks - every kind but IncreaseLevel, which changes delivery),
+   calls through any of them at any time, at every level through every front end: each call delivers
+   what the root delivers and fires, after the due hooks of the root's tree, exactly the hooks
+   registered on ITS OWN derivation path, once each in registration order, iff the entry is accepted -
+   never a hook registered on a sibling, however many registrations the common parent was built by *)
+Theorem C05_sibling_hooks : forall w root ops,
+  Forall (fun o => keeps_delivery o = true) ops ->
+  srun w root [root] ops = sspec w root [[]] ops.
+Proof. exact sibling_hooks_thm. Qed.
+Print Assumptions C05_sibling_hooks.
+
+(* in the histories of the wire model a step never changes a logger derived earlier *)
+Theorem C05_derivation_appends : forall ok uv w c cs o,
+  exists tl, snd (next_state ok uv w c cs o) = cs ++ tl.
+Proof. exact derivation_appends. Qed.
+Print Assumptions C05_derivation_appends.
+
 (* ---- the code before the fix commits (documentation of the defects) ---- *)
 Theorem C05_hook_once_orig_refuted : ~ hook_once_orig_full.
 Proof. exact hook_once_orig_refuted. Qed.
@@ -270,3 +300,13 @@ Example C05_example_counters :
   map (fun n => drop_at n 1 0) [1; 2; 3] = [false; true; true] /\
   map (fun n => drop_at n 0 1) [1; 2] = [false; false].
 Proof. vm_compute. repeat split; reflexivity. Qed.
+(* a parent built by three successive registrations (hooks 1 2 3), a With child of it, then three
+   siblings: hook 10 on the parent, hook 11 on the With child, hook 12 on the parent again; calls through
+   the siblings in the order last, first, middle, then the parent, then a disabled call *)
+Example C05_example_siblings :
+  srun (fun _ => InfoL) (Leaf 0 (ELvl InfoL)) [Leaf 0 (ELvl InfoL)]
+    [SDerive 0 6 1; SDerive 1 7 2; SDerive 2 6 3; SDerive 3 0 0;
+     SDerive 3 6 10; SDerive 4 7 11; SDerive 3 6 12;
+     SCall 7 FLogger InfoL; SCall 5 FSugar WarnL; SCall 6 FCheck InfoL; SCall 3 FLogger InfoL; SCall 5 FLogger DebugL]
+  = [([0], [1; 2; 3; 12]); ([0], [1; 2; 3; 10]); ([0], [1; 2; 3; 11]); ([0], [1; 2; 3]); ([], [])]%nat.
+Proof. vm_compute. reflexivity. Qed.
